@@ -115,7 +115,7 @@ def init_return(cfg, n_iter):
                       OptimizationContainer(prm(), prm(), opt0),
                       OptimizationExtraContainer(0, prm(), False),
                       DataGeneratorContainer(data, pgen, ogen), None,
-                      LossContainer({f"t{j}": zeros((n_iter,)) for j in range(NT)}, zeros((n_iter,))),
+                      LossContainer({TERM_NAMES[j]: zeros((n_iter,)) for j in range(NT)}, zeros((n_iter,))),
                       StoredObjectContainer(stored), None)
             fc = jax.tree_util.tree_unflatten(treedef, list(fin))
             out = (fc[2].last_non_nan_params, fc[6].train_loss_values, fc[6].stored_loss_terms, fc[4].data, fc[1],
@@ -168,7 +168,7 @@ def expected_step(cfg, n_iter, i, so_, cr, wrong=False, validation=None):
     sp_old = stc.stored_params
     stored = Params(nn_params=setat(sp_old.nn_params, th1) if tr == "both" else None,
                     eq_params={"a": setat(sp_old.eq_params["a"], a1[()]) if tr in ("a", "both") else None})
-    lc1 = LossContainer({f"t{j}": setat(lc.stored_loss_terms[f"t{j}"], y[1 + j]) for j in range(NT)},
+    lc1 = LossContainer({TERM_NAMES[j]: setat(lc.stored_loss_terms[TERM_NAMES[j]], y[1 + j]) for j in range(NT)},
                         setat(lc.train_loss_values, y[0]))
     data1 = OGen(arr(lambda j: call("Gg", pts(s), KS)[j[0]], (KS,)))
     if cfg.get("rar"):
